@@ -75,6 +75,81 @@ mod leaves {
         kani::cover!(len == 2 && buf[0] == 0xfd);
     }
 
+
+    // ---- shims/cursor.rs: assumed contracts of byteorder::ReadBytesExt / std::io::Read on std::io::Cursor<Vec<u8>> ----
+    /// read_u8 / read_u16 / read_u32 / read_u64 (little endian) and read_u32 big endian at any position of any buffer of
+    /// 0..=10 bytes: Ok exactly when enough bytes remain, value = the little/big-endian value of the next bytes,
+    /// position advanced by the width.  (BOUNDED: buffer length <= 10; the reads never look further than 8 bytes ahead.)
+    #[kani::proof]
+    #[kani::unwind(12)]
+    fn cursor_fixed_width_reads_up_to_10_bytes() {
+        use byteorder::{BigEndian, LittleEndian, ReadBytesExt};
+        let buf: [u8; 10] = kani::any();
+        let len: usize = kani::any();
+        kani::assume(len <= 10);
+        let pos: usize = kani::any();
+        kani::assume(pos <= len);
+        let which: u8 = kani::any();
+        kani::assume(which < 5);
+        let mut c = Cursor::new(buf[..len].to_vec());
+        c.set_position(pos as u64);
+        let rest = &buf[pos..len];
+        let (ok, val, width): (bool, u64, usize) = match which {
+            0 => match c.read_u8() { Ok(v) => (true, v as u64, 1), Err(e) => { std::mem::forget(e); (false, 0, 1) } },
+            1 => match c.read_u16::<LittleEndian>() { Ok(v) => (true, v as u64, 2), Err(e) => { std::mem::forget(e); (false, 0, 2) } },
+            2 => match c.read_u32::<LittleEndian>() { Ok(v) => (true, v as u64, 4), Err(e) => { std::mem::forget(e); (false, 0, 4) } },
+            3 => match c.read_u64::<LittleEndian>() { Ok(v) => (true, v, 8), Err(e) => { std::mem::forget(e); (false, 0, 8) } },
+            _ => match c.read_u32::<BigEndian>() { Ok(v) => (true, v as u64, 4), Err(e) => { std::mem::forget(e); (false, 0, 4) } },
+        };
+        assert!(ok == (rest.len() >= width));
+        if ok {
+            let mut exp: u64 = 0;
+            let mut i = 0;
+            while i < width {
+                if which == 4 { exp = (exp << 8) | rest[i] as u64; } else { exp |= (rest[i] as u64) << (8 * i); }
+                i += 1;
+            }
+            assert!(val == exp);
+            assert!(c.position() == (pos + width) as u64);
+        }
+        kani::cover!(ok && which == 3);
+        kani::cover!(!ok && which == 1 && rest.len() == 1);
+    }
+
+    /// Read::read copies min(buf.len(), remaining) bytes and returns Ok(n) (a short read is not an error);
+    /// Read::read_exact fails exactly when fewer bytes remain than asked for, otherwise copies them and advances.
+    /// (BOUNDED: source of 0..=8 bytes, destination of 0..=6 bytes.)
+    #[kani::proof]
+    #[kani::unwind(10)]
+    fn cursor_read_and_read_exact_up_to_8_bytes() {
+        use std::io::Read;
+        let buf: [u8; 8] = kani::any();
+        let len: usize = kani::any();
+        kani::assume(len <= 8);
+        let pos: usize = kani::any();
+        kani::assume(pos <= len);
+        let want: usize = kani::any();
+        kani::assume(want <= 6);
+        let exact: bool = kani::any();
+        let mut c = Cursor::new(buf[..len].to_vec());
+        c.set_position(pos as u64);
+        let mut dst = [0xEEu8; 6];
+        let rest = len - pos;
+        if exact {
+            match c.read_exact(&mut dst[..want]) {
+                Ok(()) => { assert!(rest >= want); assert!(same(&dst[..want], &buf[pos..pos + want])); assert!(c.position() == (pos + want) as u64); }
+                Err(e) => { std::mem::forget(e); assert!(rest < want); }
+            }
+        } else {
+            match c.read(&mut dst[..want]) {
+                Ok(n) => { let m = if rest < want { rest } else { want }; assert!(n == m); assert!(same(&dst[..n], &buf[pos..pos + n])); assert!(c.position() == (pos + n) as u64); }
+                Err(e) => { std::mem::forget(e); assert!(false); }
+            }
+        }
+        kani::cover!(!exact && rest < want);
+        kani::cover!(exact && rest < want);
+    }
+
     // ---- script stack primitives (through the cfg(bsv_verif) hook) ----
     use bsv::verif_hooks::ScriptStack;
 
